@@ -26,8 +26,9 @@ def dominant_bpm(m: Map):
         .diff()
         # Drop NA created by diff
         .dropna()
-        # Set index/axis to bpm for grouping
-        .set_axis(m.bpms.bpm)
+        # Set index/axis to bpm for grouping: the intervals are in time order,
+        # so the bpms must be taken in time order too, not in row order
+        .set_axis(m.bpms.sorted().bpm)
         # Group by the bpm
         .groupby(level=0)
         # Sum groups
